@@ -1,4 +1,5 @@
-//! A strict XML 1.1 well-formedness checker for the subset the CLI emits (declaration, elements
+//! A strict XML well-formedness checker (XML 1.0 or 1.1 rules according to the version the document declares;
+//! no declaration = 1.0) for the subset the CLI emits (declaration, elements
 //! without attributes, character data with predefined entities / character references), producing a tree.
 
 #[derive(Debug, Clone, PartialEq)]
@@ -14,13 +15,20 @@ fn is_name_start(c: char) -> bool {
 
 fn is_name_char(c: char) -> bool { is_name_start(c) || matches!(c, '-' | '.' | '0'..='9' | '\u{B7}' | '\u{0300}'..='\u{036F}' | '\u{203F}'..='\u{2040}') }
 
-/// XML 1.1 Char minus RestrictedChar: what may appear literally.
-fn is_literal_char(c: char) -> bool {
+/// The Char production of the declared version: what a character reference may denote.
+fn is_char(c: char, v11: bool) -> bool {
     let u = c as u32;
     if u == 0 || u == 0xFFFE || u == 0xFFFF {
         return false;
     }
-    !(matches!(u, 0x1..=0x8 | 0xB..=0xC | 0xE..=0x1F | 0x7F..=0x84 | 0x86..=0x9F))
+    // XML 1.0: #x9 | #xA | #xD | [#x20-#xD7FF] | [#xE000-#xFFFD] | [#x10000-#x10FFFF]; XML 1.1: [#x1-#xD7FF] | ...
+    v11 || u >= 0x20 || matches!(u, 0x9 | 0xA | 0xD)
+}
+
+/// What may appear literally: Char, and in XML 1.1 minus RestrictedChar.
+fn is_literal_char(c: char, v11: bool) -> bool {
+    let u = c as u32;
+    is_char(c, v11) && !(v11 && matches!(u, 0x1..=0x8 | 0xB..=0xC | 0xE..=0x1F | 0x7F..=0x84 | 0x86..=0x9F))
 }
 
 pub fn valid_name(s: &str) -> bool {
@@ -34,6 +42,8 @@ pub fn valid_name(s: &str) -> bool {
 struct P<'a> {
     s: &'a str,
     i: usize,
+    /// the document declares version 1.1
+    v11: bool,
 }
 
 impl<'a> P<'a> {
@@ -87,14 +97,20 @@ impl<'a> P<'a> {
                         "amp" => '&',
                         "apos" => '\'',
                         "quot" => '"',
-                        e if e.starts_with("#x") => u32::from_str_radix(&e[2 ..], 16).ok().and_then(char::from_u32).filter(|c| *c != '\0').ok_or("bad character reference")?,
-                        e if e.starts_with('#') => e[1 ..].parse::<u32>().ok().and_then(char::from_u32).filter(|c| *c != '\0').ok_or("bad character reference")?,
+                        e if e.starts_with('#') => {
+                            let code = if let Some(h) = e.strip_prefix("#x") { u32::from_str_radix(h, 16).ok() } else { e[1 ..].parse::<u32>().ok() };
+                            let ch = code.and_then(char::from_u32).ok_or("bad character reference")?;
+                            if !is_char(ch, self.v11) {
+                                return Err(format!("character reference &{e}; is not a legal character in XML {}", if self.v11 { "1.1" } else { "1.0" }));
+                            }
+                            ch
+                        }
                         e => return Err(format!("unknown entity &{e};")),
                     };
                     out.push(ch);
                     self.i += semi + 1;
                 }
-                c if !is_literal_char(c) => return Err(format!("character U+{:04X} may not appear literally in XML 1.1 text", c as u32)),
+                c if !is_literal_char(c, self.v11) => return Err(format!("character U+{:04X} may not appear literally in XML {} text", c as u32, if self.v11 { "1.1" } else { "1.0" })),
                 c => {
                     if r.starts_with("]]>") {
                         return Err("']]>' in character data".into());
@@ -124,16 +140,16 @@ impl<'a> P<'a> {
                 return Err("'<' in attribute value".into());
             }
             // decode with the text rules (entities, literal-character restrictions)
-            let mut sub = P { s: raw, i: 0 };
+            let mut sub = P { s: raw, i: 0, v11: self.v11 };
             let mut val = String::new();
             while !sub.rest().is_empty() {
                 let before = sub.i;
                 // `text` stops at '<' only; append a sentinel-free copy
                 let chunk = {
-                    let mut tmp = P { s: &raw[before ..], i: 0 };
+                    let mut tmp = P { s: &raw[before ..], i: 0, v11: self.v11 };
                     let mut tail = String::from(&raw[before ..]);
                     tail.push('<');
-                    let mut t2 = P { s: &tail, i: 0 };
+                    let mut t2 = P { s: &tail, i: 0, v11: self.v11 };
                     let v = t2.text()?;
                     tmp.i = raw.len() - before;
                     sub.i = before + tmp.i;
@@ -182,12 +198,14 @@ impl<'a> P<'a> {
 
 /// Parse a document: declaration, one root element, optional trailing whitespace.
 pub fn parse(doc: &str) -> Result<Node, String> {
-    let mut p = P { s: doc, i: 0 };
+    let mut p = P { s: doc, i: 0, v11: false };
     if p.eat("<?xml") {
         let end = p.rest().find("?>").ok_or("unterminated XML declaration")?;
         let decl = &p.rest()[.. end];
-        if !decl.contains("version=\"1.1\"") && !decl.contains("version=\"1.0\"") {
-            return Err("XML declaration without version".into());
+        if decl.contains("version=\"1.1\"") || decl.contains("version='1.1'") {
+            p.v11 = true;
+        } else if !decl.contains("version=\"1.0\"") && !decl.contains("version='1.0'") {
+            return Err("XML declaration without a known version".into());
         }
         p.i += end + 2;
     }
